@@ -191,6 +191,12 @@ theorem C07_skeleton_update : skel_Sequence_update =
     ["call seq.store.Get", "switch{", "case", "case", "return", "case", "}switch", "call seq.store.Set", "if{",
       "return", "}if", "return"] := by decide
 
+/-- The object's fields: one embedded mutex (the `lock seq` of the skeletons above), the store handle and
+key, and the three 64-bit counters the model calls `interval`, `next`, `reserved`. -/
+theorem C07_skeleton_type_sequence : Hive.Gen.C07Skel.skel_type_Sequence =
+    ["struct", "embedded sync.Mutex", "store KVStore", "key []byte", "interval uint64", "next uint64",
+      "reserved uint64"] := by decide
+
 /-- A failed store call never wastes or reuses anything: the frontier is unchanged and an error (or,
 when the call needs no store access, its normal answer) is returned. -/
 theorem C07_store_error_harmless (s : St) (o : Obj) (h : Inv s) (hobj : s.obj = some o) (hl : hasLease o = false)
